@@ -279,11 +279,76 @@ def run_case(ctx: Ctx, case) -> None:
         ctx.case(case, labels=labels, nontrivial=nt)
 
 
+# ---------------------------------------------------------------- cached replay with an edited consumer
+@st.composite
+def replay_cases(draw):
+    ar = lambda: {"k": "arith", "mul": draw(st.integers(1, 2)), "add": draw(st.integers(0, 3))}  # noqa: E731
+    return {"replay": True, "root": {"k": "callcond", "consumer": 1, "test": 2, "then": 3, "kw": draw(st.booleans())},
+            "t1": ar(), "t2": ar(), "t3": ar(), "t1b": {"k": "arith", "mul": 3, "add": draw(st.integers(4, 6))},
+            "arg": draw(st.integers(0, 3)), "edit": draw(st.sampled_from(["consumer", "consumer", "then"])),
+            "decisions": draw(st.lists(st.integers(0, 3), max_size=10))}
+
+
+def replay_oracle(ctx: Ctx, case):
+    """Run 1 records t0 -> t1(cond(t2(x) >= 0, t3(x), x)). Then the consumer t1 (or the branch t3) is
+    edited: in run 2 t0 is a cache hit, its result expression comes back from the database, and
+    the re-executed consumer gets a new call node whose argument must still be linked to the
+    calls that produced it (the cond test t2 and the taken branch t3)."""
+    from redun.backends.db import Argument, ArgumentResult, CallNode
+    from vf.lab import codefam
+
+    fam = codefam.Family(4)
+    fam.install_all([case["root"], case["t1"], case["t2"], case["t3"]])
+    backend = dbx.fresh_backend()
+    try:
+        r1 = schedrun.run_program(None, decisions=case["decisions"], expr=fam.root_expr(case["arg"]), backend=backend)
+        if case["edit"] == "consumer":
+            fam.install(1, case["t1b"])
+        else:
+            fam.install(3, {**case["t3"], "add": case["t3"]["add"] + 7})
+        r2 = schedrun.run_program(None, decisions=[], expr=fam.root_expr(case["arg"]), backend=backend)
+        if r1.kind != "ok" or r2.kind != "ok":
+            raise Violation("replay-run-failed", f"runs ended {r1.kind}/{r2.kind}: {r1.payload!r} {r2.payload!r}", case)
+        session = backend.session
+        session.expire_all()
+        consumer_hash = fam.tasks[1].hash
+        nodes = session.query(CallNode).filter(CallNode.task_hash == consumer_hash).order_by(CallNode.timestamp.desc()).all()
+        if not nodes:
+            raise Violation("replay-consumer-not-recorded", "the re-executed consumer has no call node", case)
+        node = nodes[0]
+        args = session.query(Argument).filter(Argument.call_hash == node.call_hash).all()
+        ups = set()
+        for a in args:
+            for ar in session.query(ArgumentResult).filter(ArgumentResult.arg_hash == a.arg_hash).all():
+                up = session.get(CallNode, ar.result_call_hash)
+                if up is None:
+                    raise Violation("upstream-dangling", "recorded upstream is not a call node", case)
+                ups.add(up.task_name)
+        want = {"vf_fam.t2", "vf_fam.t3"}
+        if not want <= ups:
+            raise Violation(f"upstream-missing:after-cached-replay:{case['edit']}",
+                            f"consumer re-executed after its caller was replayed from the cache: its argument cond(t2(x)>=0, t3(x), x) "
+                            f"is linked to {sorted(ups)}, expected at least {sorted(want)}", case)
+    finally:
+        dbx.discard_backend(backend)
+
+
+def run_replay_case(ctx: Ctx, case) -> None:
+    try:
+        replay_oracle(ctx, case)
+    finally:
+        ctx.case(case, labels=["cached-replay", f"edit:{case['edit']}"], nontrivial=True)
+
+
 def check(ctx: Ctx) -> None:
     C.quiet_logs()
     ctx.given(cases(), lambda c: run_case(ctx, c), ctx.n(200, 6000))
+    ctx.given(replay_cases(), lambda c: run_replay_case(ctx, c), ctx.n(30, 1200))
 
 
 def replay(ctx: Ctx, case) -> None:
     C.quiet_logs()
-    oracle(ctx, case)
+    if isinstance(case, dict) and case.get("replay"):
+        replay_oracle(ctx, case)
+    else:
+        oracle(ctx, case)
